@@ -27,7 +27,8 @@ Record node := mkNode {
 Record entity := mkEnt { e_id : N; e_nodes : list N }.
 (* runtime descriptor: kind 1 compute / 2 key manager; governance 1 entity / 2 runtime / 3 consensus;
    admission policy: None = any node, Some l = entity whitelist without per-role limits *)
-Record runtime := mkRt { r_id : N; r_ent : N; r_kind : N; r_gov : N; r_wl : option (list N) }.
+Record runtime := mkRt { r_id : N; r_ent : N; r_kind : N; r_gov : N; r_wl : option (list N);
+                          r_km : option N }.   (* key manager runtime a compute runtime refers to *)
 
 (* ---------- finite sets of pairs (index entries with empty value) ---------- *)
 Definition pair_eqb (a b : N * N) : bool := (fst a =? fst b) && (snd a =? snd b).
@@ -276,6 +277,9 @@ Section WithParams.
      id and consensus id must not change (1054-1075); only then the early
      return for an expired current record (1078), after which come the checks
      for active nodes (runtimes, roles: constant in this model). *)
+  (* the order of the checks below, as numbered by harness/cmd/gen registryconsts
+     (compared with the current source by Props/C17.v verify_node_update_order_as_modelled) *)
+  Definition verify_node_update_order_modelled : list N := [1; 2; 3; 4; 5; 6].
   Definition verify_node_update (epoch : N) (cur n : node) : code :=
     if negb (n_id cur =? n_id n) then CNodeUpdateNotAllowed           (* 1054 *)
     else if negb (n_ent cur =? n_ent n) then CNodeUpdateNotAllowed    (* 1061 *)
@@ -387,11 +391,29 @@ Section WithParams.
 
   (* registerRuntime transactions.go:577-846 (descriptor otherwise well formed:
      deployments constant, no key manager reference, DebugDeployImmediately) *)
+  (* api.go:1261-1276: a key manager reference, once set, can neither be removed nor changed *)
+  Definition km_changed (cur new : option N) : bool :=
+    match cur, new with
+    | Some a, Some b => negb (a =? b)
+    | Some _, None => true
+    | None, _ => false
+    end.
+  (* VerifyRegisterComputeRuntimeArgs api.go:1183-1217 *)
+  Definition km_ref_check (s : state) (rt : runtime) : code :=
+    if negb (r_kind rt =? 1) then COk
+    else match r_km rt with
+         | None => COk
+         | Some k => match any_runtime s k with
+                     | None => CNoSuchRuntime                            (* 1187-1193 *)
+                     | Some km => if r_kind km =? 2 then COk else CInvalidArgument  (* 1196-1204 *)
+                     end
+         end.
   (* VerifyRuntimeUpdate api.go:1234-1371 for an existing (active or suspended) runtime *)
   Definition rt_update_check (s : state) (rt : runtime) : code :=
     match any_runtime s (r_id rt) with
     | Some ex =>
         if negb (r_kind ex =? r_kind rt) then CRuntimeUpdateNotAllowed  (* api.go:1249 *)
+        else if km_changed (r_km ex) (r_km rt) then CRuntimeUpdateNotAllowed  (* api.go:1261-1276 *)
         else if negb (r_gov ex =? r_gov rt) && negb ((r_gov ex =? 1) && (r_gov rt =? 2))
              then CRuntimeUpdateNotAllowed                              (* api.go:1279-1289 *)
         else COk
@@ -410,11 +432,16 @@ Section WithParams.
     end.
   Definition reg_runtime_check (s : state) (caller : N) (rt : runtime) : code :=
     if (r_kind rt =? 1) && km_id (r_id rt) then CInvalidArgument          (* runtime.go:428 *)
+    else if (r_kind rt =? 1) && (match r_km rt with Some k => k =? r_id rt | None => false end)
+         then CInvalidArgument                                            (* runtime.go:431 self as key manager *)
+    else if (r_kind rt =? 2) && (match r_km rt with Some _ => true | None => false end)
+         then CInvalidArgument                                            (* runtime.go:450 *)
     else if (r_kind rt =? 2) && negb (km_id (r_id rt)) then CInvalidArgument (* runtime.go:446 *)
     else if negb ((r_kind rt =? 1) || (r_kind rt =? 2)) then CInvalidArgument (* runtime.go:459 *)
     else if (r_gov rt <? 1) || (3 <? r_gov rt) then CInvalidArgument      (* runtime.go:470 *)
     else if negb ((r_gov rt =? 1) || (r_gov rt =? 2)) then CForbidden     (* api.go:1149 model not enabled *)
     else if (r_gov rt =? 2) && negb (r_kind rt =? 1) then CInvalidArgument (* api.go:1171 *)
+    else if negb (code_is_ok (km_ref_check s rt)) then km_ref_check s rt  (* transactions.go:612-616 *)
     else match rt_update_check s rt with
          | COk => rt_signer_check s caller rt
          | c => c
@@ -575,7 +602,7 @@ Section WithParams.
       ++ rt_claims_part s (2 * e).
   Definition rt_acct_row (s : state) (r : N) : list N := (2000 + r) :: rt_claims_part s (2 * r + 1).
   Definition runtime_row (s : state) (r : N) : list N :=
-    let row st rt := [r; st; r_ent rt; r_kind rt; r_gov rt] ++
+    let row st rt := [r; st; r_ent rt; r_kind rt; r_gov rt; match r_km rt with Some k => k | None => 0 end] ++
                      match r_wl rt with Some l => 1 :: l | None => [0] end in
     match aget r (s_rts s) with
     | Some rt => row 1 rt
@@ -592,8 +619,8 @@ Section WithParams.
     [map (fun e => b2n (has_entity_nodes s e)) ents] ++
     [map (fun e => b2n (has_entity_runtimes s e)) ents] ++
     map (claims_row s) ents ++
-    map (runtime_row s) [1; 2; 3] ++
-    map (rt_acct_row s) [1; 2; 3] ++
+    map (runtime_row s) [1; 2; 3; 4] ++
+    map (rt_acct_row s) [1; 2; 3; 4] ++
     [flat_map (fun k => match aget k (s_status s) with
                         | Some st => [k; b2n (st_expired st); st_freeze st; b2n (st_inelig st)]
                         | None => []
